@@ -398,6 +398,108 @@ fn enc_letters(h: &http::HeaderMap) -> String {
     }
 }
 
+fn build_server(route: &str, acc: &str, snd: &str) -> Option<tonic::server::Grpc<RawCodec>> {
+    let mut grpc = tonic::server::Grpc::new(RawCodec);
+    match route.to_ascii_lowercase().as_str() {
+        "d" => {
+            for ch in acc.chars().filter(|c| *c != '-') {
+                grpc = grpc.accept_compressed(enc_of(ch)?);
+            }
+            for ch in snd.chars().filter(|c| *c != '-') {
+                grpc = grpc.send_compressed(enc_of(ch)?);
+            }
+        }
+        "c" => {
+            grpc = grpc.apply_compression_config(enabled_from_calls(acc), enabled_from_calls(snd));
+        }
+        _ => return None,
+    }
+    Some(grpc)
+}
+
+/// Run one call through the real `server::Grpc` and read its response to the end.
+async fn serve_shape<B>(
+    grpc: &mut tonic::server::Grpc<RawCodec>,
+    shape: &str,
+    script: Script,
+    req: http::Request<B>,
+) -> (http::response::Parts, Vec<u8>, Option<http::HeaderMap>)
+where
+    B: http_body::Body + Send + 'static,
+    B::Error: Into<Box<dyn std::error::Error + Send + Sync>> + Send,
+{
+    let resp = match shape {
+        "u" => grpc.unary(UnarySvc(script), req).await,
+        "ss" => grpc.server_streaming(SStreamSvc(script), req).await,
+        "cs" => grpc.client_streaming(CStreamSvc(script), req).await,
+        _ => grpc.streaming(BidiSvc(script), req).await,
+    };
+    let (parts, mut body) = resp.into_parts();
+    let mut data = Vec::new();
+    let mut trailers: Option<http::HeaderMap> = None;
+    let mut after_trailers = false;
+    while let Some(fr) = body.frame().await {
+        match fr {
+            Ok(f) => {
+                if f.is_data() {
+                    if trailers.is_some() {
+                        after_trailers = true;
+                    }
+                    data.extend_from_slice(&f.into_data().unwrap());
+                } else if let Ok(t) = f.into_trailers() {
+                    trailers = Some(t);
+                }
+            }
+            Err(_) => break,
+        }
+    }
+    if after_trailers {
+        data.clear();
+        data.push(0xff);
+    }
+    (parts, data, trailers)
+}
+
+fn srv_tokens(rec: &Rec, headers: &http::HeaderMap, data: &[u8], trailers: Option<&http::HeaderMap>, rmsg: &[u8]) -> String {
+    let (wh, st) = if let Some(st) = Status::from_header_map(headers) {
+        ("hdr", Some(st))
+    } else if let Some(st) = trailers.and_then(Status::from_header_map) {
+        ("trl", Some(st))
+    } else {
+        ("absent", None)
+    };
+    let st_tok = match &st {
+        Some(s) => format!("{} {} {}", wh, s.code() as i32, err_class(s)),
+        None => "absent 0 -".to_string(),
+    };
+    let fr_tok = match parse_frames(data) {
+        Some(fs) => {
+            let v: Vec<String> = fs.iter().map(|(f, p)| format!("{}:{}", f, classify(p, rmsg))).collect();
+            if v.is_empty() {
+                "0".to_string()
+            } else {
+                format!("{} {}", v.len(), v.join(" "))
+            }
+        }
+        None => "malformed".into(),
+    };
+    let saw = if rec.saw.is_empty() { "0".to_string() } else { format!("{} {}", rec.saw.len(), rec.saw.join(" ")) };
+    let summary = match &st {
+        Some(s) => format!("s{}.{}.{}", s.code() as i32, err_class(s), enc_letters(headers)),
+        None => format!("s-.-.{}", enc_letters(headers)),
+    };
+    format!(
+        "{} called {} saw {} enc {} acc {} st {} fr {}",
+        summary,
+        rec.called as u8,
+        saw,
+        header_vals(headers, "grpc-encoding"),
+        header_vals(headers, "grpc-accept-encoding"),
+        st_tok,
+        fr_tok
+    )
+}
+
 fn run_srv(shape: &str, c: &mut Cur<'_>) -> Option<String> {
     let route = c.next()?;
     let acc = c.next()?;
@@ -417,21 +519,7 @@ fn run_srv(shape: &str, c: &mut Cur<'_>) -> Option<String> {
     c.lit("R")?;
     let rmsg = unhex(c.next()?)?;
 
-    let mut grpc = tonic::server::Grpc::new(RawCodec);
-    match route.to_ascii_lowercase().as_str() {
-        "d" => {
-            for ch in acc.chars().filter(|c| *c != '-') {
-                grpc = grpc.accept_compressed(enc_of(ch)?);
-            }
-            for ch in snd.chars().filter(|c| *c != '-') {
-                grpc = grpc.send_compressed(enc_of(ch)?);
-            }
-        }
-        "c" => {
-            grpc = grpc.apply_compression_config(enabled_from_calls(acc), enabled_from_calls(snd));
-        }
-        _ => return None,
-    }
+    let mut grpc = build_server(route, acc, snd)?;
 
     let mut body = Vec::new();
     for (flag, pc, msg) in &frames {
@@ -499,77 +587,12 @@ fn run_srv(shape: &str, c: &mut Cur<'_>) -> Option<String> {
                     }
                 }
             }
-            let resp = match shape {
-                "u" => grpc.unary(UnarySvc(script), req).await,
-                "ss" => grpc.server_streaming(SStreamSvc(script), req).await,
-                "cs" => grpc.client_streaming(CStreamSvc(script), req).await,
-                _ => grpc.streaming(BidiSvc(script), req).await,
-            };
-            let (parts, mut body) = resp.into_parts();
-            let mut data = Vec::new();
-            let mut trailers: Option<http::HeaderMap> = None;
-            let mut after_trailers = false;
-            while let Some(fr) = body.frame().await {
-                match fr {
-                    Ok(f) => {
-                        if f.is_data() {
-                            if trailers.is_some() {
-                                after_trailers = true;
-                            }
-                            data.extend_from_slice(&f.into_data().unwrap());
-                        } else if let Ok(t) = f.into_trailers() {
-                            trailers = Some(t);
-                        }
-                    }
-                    Err(_) => break,
-                }
-            }
-            if after_trailers {
-                data.clear();
-                data.push(0xff);
-            }
-            (parts, data, trailers)
+            serve_shape(&mut grpc, shape, script, req).await
         })
     });
 
     let rec = rec.lock().unwrap();
-    let (wh, st) = if let Some(st) = Status::from_header_map(&parts.headers) {
-        ("hdr", Some(st))
-    } else if let Some(st) = trailers.as_ref().and_then(Status::from_header_map) {
-        ("trl", Some(st))
-    } else {
-        ("absent", None)
-    };
-    let st_tok = match &st {
-        Some(s) => format!("{} {} {}", wh, s.code() as i32, err_class(s)),
-        None => "absent 0 -".to_string(),
-    };
-    let fr_tok = match parse_frames(&data) {
-        Some(fs) => {
-            let v: Vec<String> = fs.iter().map(|(f, p)| format!("{}:{}", f, classify(p, &rmsg))).collect();
-            if v.is_empty() {
-                "0".to_string()
-            } else {
-                format!("{} {}", v.len(), v.join(" "))
-            }
-        }
-        None => "malformed".into(),
-    };
-    let saw = if rec.saw.is_empty() { "0".to_string() } else { format!("{} {}", rec.saw.len(), rec.saw.join(" ")) };
-    let summary = match &st {
-        Some(s) => format!("s{}.{}.{}", s.code() as i32, err_class(s), enc_letters(&parts.headers)),
-        None => format!("s-.-.{}", enc_letters(&parts.headers)),
-    };
-    Some(format!(
-        "{} called {} saw {} enc {} acc {} st {} fr {}",
-        summary,
-        rec.called as u8,
-        saw,
-        header_vals(&parts.headers, "grpc-encoding"),
-        header_vals(&parts.headers, "grpc-accept-encoding"),
-        st_tok,
-        fr_tok
-    ))
+    Some(srv_tokens(&rec, &parts.headers, &data, trailers.as_ref(), &rmsg))
 }
 
 // ---------------------------------------------------------------- client side
@@ -644,38 +667,27 @@ impl tower_service::Service<http::Request<tonic::body::Body>> for Transport {
     }
 }
 
-fn run_cli(shape: &str, c: &mut Cur<'_>) -> Option<String> {
-    let snd = c.next()?;
-    let acc = c.next()?;
-    let umd_enc = c.hexs("UE")?;
-    let umd_acc = c.hexs("UA")?;
-    c.lit("Q")?;
-    let k = c.num()?;
-    let reqmsg = unhex(c.next()?)?;
-    let enc_vals = c.hexs("E")?;
-    let hdr_status = c.optcode("HS")?;
-    let frames = c.frames()?;
-    let trl_status = c.optcode("TS")?;
+type BoxErr = Box<dyn std::error::Error + Send + Sync>;
 
-    for v in &enc_vals {
-        if http::HeaderValue::from_bytes(v).is_err() {
-            return Some("not-a-header-value".into());
-        }
-    }
-    let mut body = Vec::new();
-    for (flag, pc, msg) in &frames {
-        body.extend_from_slice(&wire_frame(*flag, &compress_with(*pc, msg)));
-    }
-    let cap = Arc::new(Mutex::new(Captured::default()));
-    let transport = Transport { cap: cap.clone(), enc_vals: Arc::new(enc_vals), hdr_status, body: Arc::new(body), trl_status };
-    let mut grpc = tonic::client::Grpc::new(transport);
-    for ch in snd.chars().filter(|c| *c != '-') {
-        grpc = grpc.send_compressed(enc_of(ch)?);
-    }
-    for ch in acc.chars().filter(|c| *c != '-') {
-        grpc = grpc.accept_compressed(enc_of(ch)?);
-    }
-    fn with_md<T>(mut r: Request<T>, e: &[Vec<u8>], a: &[Vec<u8>]) -> Option<Request<T>> {
+/// Make one call through the real `client::Grpc` and report the caller-visible items and the
+/// `grpc-accept-encoding` values found in an error's metadata. `None` = the caller's metadata
+/// could not be built.
+fn drive_client<T>(
+    grpc: tonic::client::Grpc<T>,
+    shape: &str,
+    k: usize,
+    reqmsg: &[u8],
+    umd_enc: &[Vec<u8>],
+    umd_acc: &[Vec<u8>],
+    refs: &[Vec<u8>],
+) -> Option<(Vec<String>, Vec<String>)>
+where
+    T: tonic::client::GrpcService<tonic::body::Body> + Clone,
+    T::Error: Into<BoxErr>,
+    T::ResponseBody: http_body::Body + Send + 'static,
+    <T::ResponseBody as http_body::Body>::Error: Into<BoxErr>,
+{
+    fn with_md<M>(mut r: Request<M>, e: &[Vec<u8>], a: &[Vec<u8>]) -> Option<Request<M>> {
         for v in e {
             r.metadata_mut().append("grpc-encoding", tonic::metadata::MetadataValue::try_from(v.as_slice()).ok()?);
         }
@@ -690,14 +702,13 @@ fn run_cli(shape: &str, c: &mut Cur<'_>) -> Option<String> {
     let shape = shape_lc.as_str();
     let mut grpc = if cloned { grpc.clone() } else { grpc };
     let path = http::uri::PathAndQuery::from_static("/svc/M");
-    let refs: Vec<Vec<u8>> = frames.iter().map(|f| f.2.clone()).collect();
     let item_ok = |idx: usize, got: &[u8]| -> String {
         let reference: &[u8] = refs.get(idx).map(|v| v.as_slice()).unwrap_or(&[]);
         format!("ok:{}", classify(got, reference))
     };
     let eacc = |st: &Status| -> Vec<String> { st.metadata().get_all("grpc-accept-encoding").iter().map(|v| hex(v.as_encoded_bytes())).collect() };
 
-    let (items, errs): (Vec<String>, Vec<String>) = match RT.with(|rt| {
+    RT.with(|rt| {
         rt.block_on(async {
             let mut items: Vec<String> = Vec::new();
             let mut errs: Vec<String> = Vec::new();
@@ -738,7 +749,7 @@ fn run_cli(shape: &str, c: &mut Cur<'_>) -> Option<String> {
             }
             match shape {
                 "u" => {
-                    let r = with_md(Request::new(reqmsg.clone()), &umd_enc, &umd_acc)?;
+                    let r = with_md(Request::new(reqmsg.to_vec()), umd_enc, umd_acc)?;
                     match grpc.unary(r, path, RawCodec).await {
                         Ok(resp) => items.push(item_ok(0, resp.get_ref())),
                         Err(e) => {
@@ -748,8 +759,8 @@ fn run_cli(shape: &str, c: &mut Cur<'_>) -> Option<String> {
                     }
                 }
                 "cs" => {
-                    let msgs: Vec<Vec<u8>> = (0..k).map(|_| reqmsg.clone()).collect();
-                    let r = with_md(Request::new(tokio_stream::iter(msgs)), &umd_enc, &umd_acc)?;
+                    let msgs: Vec<Vec<u8>> = (0..k).map(|_| reqmsg.to_vec()).collect();
+                    let r = with_md(Request::new(tokio_stream::iter(msgs)), umd_enc, umd_acc)?;
                     match grpc.client_streaming(r, path, RawCodec).await {
                         Ok(resp) => items.push(item_ok(0, resp.get_ref())),
                         Err(e) => {
@@ -759,28 +770,26 @@ fn run_cli(shape: &str, c: &mut Cur<'_>) -> Option<String> {
                     }
                 }
                 "ss" => {
-                    let r = with_md(Request::new(reqmsg.clone()), &umd_enc, &umd_acc)?;
+                    let r = with_md(Request::new(reqmsg.to_vec()), umd_enc, umd_acc)?;
                     let res = grpc.server_streaming(r, path, RawCodec).await;
                     drain(res, &mut items, &mut errs, &item_ok, &eacc).await;
                 }
                 _ => {
-                    let msgs: Vec<Vec<u8>> = (0..k).map(|_| reqmsg.clone()).collect();
-                    let r = with_md(Request::new(tokio_stream::iter(msgs)), &umd_enc, &umd_acc)?;
+                    let msgs: Vec<Vec<u8>> = (0..k).map(|_| reqmsg.to_vec()).collect();
+                    let r = with_md(Request::new(tokio_stream::iter(msgs)), umd_enc, umd_acc)?;
                     let res = grpc.streaming(r, path, RawCodec).await;
                     drain(res, &mut items, &mut errs, &item_ok, &eacc).await;
                 }
             }
             Some((items, errs))
         })
-    }) {
-        Some(x) => x,
-        None => return Some("bad-md".into()),
-    };
+    })
+}
 
-    let cap = cap.lock().unwrap();
-    let fr_tok = match parse_frames(&cap.body) {
+fn cli_tokens(req_headers: &http::HeaderMap, req_body: &[u8], reqmsg: &[u8], items: &[String], errs: &[String]) -> String {
+    let fr_tok = match parse_frames(req_body) {
         Some(fs) => {
-            let v: Vec<String> = fs.iter().map(|(f, p)| format!("{}:{}", f, classify(p, &reqmsg))).collect();
+            let v: Vec<String> = fs.iter().map(|(f, p)| format!("{}:{}", f, classify(p, reqmsg))).collect();
             if v.is_empty() {
                 "0".to_string()
             } else {
@@ -789,22 +798,184 @@ fn run_cli(shape: &str, c: &mut Cur<'_>) -> Option<String> {
         }
         None => "malformed".into(),
     };
-    let list = |v: &Vec<String>| if v.is_empty() { "0".to_string() } else { format!("{} {}", v.len(), v.join(" ")) };
+    let list = |v: &[String]| if v.is_empty() { "0".to_string() } else { format!("{} {}", v.len(), v.join(" ")) };
     let outcome = match items.last() {
         None => "none".to_string(),
         Some(l) if l.starts_with("ok") => "ok".to_string(),
         Some(l) => l.clone(),
     };
-    Some(format!(
+    format!(
         "c{}.{} enc {} acc {} fr {} res {} eacc {}",
         outcome,
-        enc_letters(&cap.headers),
-        header_vals(&cap.headers, "grpc-encoding"),
-        header_vals(&cap.headers, "grpc-accept-encoding"),
+        enc_letters(req_headers),
+        header_vals(req_headers, "grpc-encoding"),
+        header_vals(req_headers, "grpc-accept-encoding"),
         fr_tok,
-        list(&items),
-        list(&errs)
-    ))
+        list(items),
+        list(errs)
+    )
+}
+
+fn configure_client<T>(mut grpc: tonic::client::Grpc<T>, snd: &str, acc: &str) -> Option<tonic::client::Grpc<T>> {
+    for ch in snd.chars().filter(|c| *c != '-') {
+        grpc = grpc.send_compressed(enc_of(ch)?);
+    }
+    for ch in acc.chars().filter(|c| *c != '-') {
+        grpc = grpc.accept_compressed(enc_of(ch)?);
+    }
+    Some(grpc)
+}
+
+fn run_cli(shape: &str, c: &mut Cur<'_>) -> Option<String> {
+    let snd = c.next()?;
+    let acc = c.next()?;
+    let umd_enc = c.hexs("UE")?;
+    let umd_acc = c.hexs("UA")?;
+    c.lit("Q")?;
+    let k = c.num()?;
+    let reqmsg = unhex(c.next()?)?;
+    let enc_vals = c.hexs("E")?;
+    let hdr_status = c.optcode("HS")?;
+    let frames = c.frames()?;
+    let trl_status = c.optcode("TS")?;
+
+    for v in &enc_vals {
+        if http::HeaderValue::from_bytes(v).is_err() {
+            return Some("not-a-header-value".into());
+        }
+    }
+    let mut body = Vec::new();
+    for (flag, pc, msg) in &frames {
+        body.extend_from_slice(&wire_frame(*flag, &compress_with(*pc, msg)));
+    }
+    let cap = Arc::new(Mutex::new(Captured::default()));
+    let transport = Transport { cap: cap.clone(), enc_vals: Arc::new(enc_vals), hdr_status, body: Arc::new(body), trl_status };
+    let grpc = configure_client(tonic::client::Grpc::new(transport), snd, acc)?;
+    let refs: Vec<Vec<u8>> = frames.iter().map(|f| f.2.clone()).collect();
+    let (items, errs) = match drive_client(grpc, shape, k, &reqmsg, &umd_enc, &umd_acc, &refs) {
+        Some(x) => x,
+        None => return Some("bad-md".into()),
+    };
+    let cap = cap.lock().unwrap();
+    Some(cli_tokens(&cap.headers, &cap.body, &reqmsg, &items, &errs))
+}
+
+// ---------------------------------------------------------------- a real client against a real server
+
+#[derive(Default)]
+struct Wire {
+    req_headers: http::HeaderMap,
+    req_body: Vec<u8>,
+    resp_headers: http::HeaderMap,
+    resp_data: Vec<u8>,
+    resp_trailers: Option<http::HeaderMap>,
+}
+
+/// The client's transport is the server: the request is collected (and recorded), handed to a
+/// real `server::Grpc`, whose response is collected (and recorded) and handed back.
+#[derive(Clone)]
+struct ServerTransport {
+    shape: String,
+    route: String,
+    sacc: String,
+    ssnd: String,
+    script: Script,
+    wire: Arc<Mutex<Wire>>,
+}
+
+impl tower_service::Service<http::Request<tonic::body::Body>> for ServerTransport {
+    type Response = http::Response<RespBody>;
+    type Error = Status;
+    type Future = BoxFut<Result<http::Response<RespBody>, Status>>;
+    fn poll_ready(&mut self, _: &mut Context<'_>) -> Poll<Result<(), Status>> {
+        Poll::Ready(Ok(()))
+    }
+    fn call(&mut self, req: http::Request<tonic::body::Body>) -> Self::Future {
+        let t = self.clone();
+        Box::pin(async move {
+            let (parts, mut body) = req.into_parts();
+            let mut data = Vec::new();
+            while let Some(fr) = body.frame().await {
+                match fr {
+                    Ok(f) => {
+                        if let Ok(d) = f.into_data() {
+                            data.extend_from_slice(&d);
+                        }
+                    }
+                    Err(_) => break,
+                }
+            }
+            {
+                let mut w = t.wire.lock().unwrap();
+                w.req_headers = parts.headers.clone();
+                w.req_body = data.clone();
+            }
+            let req = http::Request::from_parts(parts, http_body_util::Full::new(Bytes::from(data)));
+            let mut grpc = build_server(&t.route, &t.sacc, &t.ssnd).ok_or_else(|| Status::unknown("bad-config"))?;
+            let shape = t.shape.to_ascii_lowercase();
+            let (rparts, rdata, rtrailers) = serve_shape(&mut grpc, &shape, t.script.clone(), req).await;
+            {
+                let mut w = t.wire.lock().unwrap();
+                w.resp_headers = rparts.headers.clone();
+                w.resp_data = rdata.clone();
+                w.resp_trailers = rtrailers.clone();
+            }
+            let mut frames: Vec<Result<http_body::Frame<Bytes>, Status>> = Vec::new();
+            if !rdata.is_empty() {
+                frames.push(Ok(http_body::Frame::data(Bytes::from(rdata))));
+            }
+            if let Some(tr) = rtrailers {
+                frames.push(Ok(http_body::Frame::trailers(tr)));
+            }
+            Ok(http::Response::from_parts(rparts, http_body_util::StreamBody::new(tokio_stream::iter(frames))))
+        })
+    }
+}
+
+/// pair.<shape> <route> <cli snd> <cli acc> <srv acc> <srv snd> K k H <reply|fail> n dis Q reqmsg R rmsg
+fn run_pair(shape: &str, c: &mut Cur<'_>) -> Option<String> {
+    let route = c.next()?;
+    let csnd = c.next()?;
+    let cacc = c.next()?;
+    let sacc = c.next()?;
+    let ssnd = c.next()?;
+    c.lit("K")?;
+    let k = c.num()?;
+    c.lit("H")?;
+    let reply = match c.next()? {
+        "reply" => true,
+        "fail" => false,
+        _ => return None,
+    };
+    let n = c.num()?;
+    let disable = c.num()? != 0;
+    c.lit("Q")?;
+    let reqmsg = unhex(c.next()?)?;
+    c.lit("R")?;
+    let rmsg = unhex(c.next()?)?;
+    build_server(route, sacc, ssnd)?;
+
+    let rec = Arc::new(Mutex::new(Rec::default()));
+    let script = Script {
+        rec: rec.clone(),
+        reqmsgs: Arc::new((0..k.max(1)).map(|_| reqmsg.clone()).collect()),
+        reply,
+        n,
+        disable,
+        md: Arc::new(vec![]),
+        rmsg: Arc::new(rmsg.clone()),
+    };
+    let wire = Arc::new(Mutex::new(Wire::default()));
+    let transport = ServerTransport { shape: shape.to_string(), route: route.to_string(), sacc: sacc.to_string(), ssnd: ssnd.to_string(), script, wire: wire.clone() };
+    let grpc = configure_client(tonic::client::Grpc::new(transport), csnd, cacc)?;
+    let refs: Vec<Vec<u8>> = (0..n.max(1)).map(|_| rmsg.clone()).collect();
+    let (items, errs) = drive_client(grpc, shape, k, &reqmsg, &[], &[], &refs)?;
+    let w = wire.lock().unwrap();
+    let rec = rec.lock().unwrap();
+    let st = srv_tokens(&rec, &w.resp_headers, &w.resp_data, w.resp_trailers.as_ref(), &rmsg);
+    let ct = cli_tokens(&w.req_headers, &w.req_body, &reqmsg, &items, &errs);
+    let summary = st.split(' ').next().unwrap_or("").to_string();
+    Some(format!("p{} S {} C {}", summary, st, ct))
 }
 
 pub fn execute(case: &str) -> String {
@@ -812,6 +983,7 @@ pub fn execute(case: &str) -> String {
     let r = match c.next() {
         Some(k) if k.starts_with("srv.") => run_srv(&k[4..], &mut c),
         Some(k) if k.starts_with("cli.") => run_cli(&k[4..], &mut c),
+        Some(k) if k.starts_with("pair.") => run_pair(&k[5..], &mut c),
         _ => None,
     };
     r.unwrap_or_else(|| "bad-case".into())
@@ -1428,6 +1600,69 @@ pub fn generate(tier: &str, rng: &mut Rng) -> Vec<String> {
                 }
             }
         }
+    }
+
+    // ---- a real client against a real server: the full matrix client-send × client-accept ×
+    // server-accept × server-send over all ordered subsets (4 × 16 × 16 × 16), shapes / routes /
+    // stream lengths / handler scripts rotating through it
+    let routes = ["d", "c", "D", "C"];
+    let mut pr = 0usize;
+    for csnd in ["-", "g", "d", "z"] {
+        for cacc in &subsets {
+            for sacc in &subsets {
+                for ssnd in &subsets {
+                    pr += 1;
+                    let shape = if pr % 7 == 0 { SHAPES_CLONED[pr % 4] } else { SHAPES[pr % 4] };
+                    let handler = match pr % 11 {
+                        0 => format!("fail {} 0", 1 + pr % 16),
+                        1 | 2 => format!("reply {} 1", pr % 4),
+                        _ => format!("reply {} 0", pr % 4),
+                    };
+                    out.push(format!(
+                        "pair.{} {} {} {} {} {} K {} H {} Q {} R {}",
+                        shape,
+                        routes[pr % 4],
+                        csnd,
+                        cacc,
+                        sacc,
+                        ssnd,
+                        pr % 3,
+                        handler,
+                        hex(if pr % 5 == 0 { b"" } else { b"\0request request request request" }),
+                        hex(if pr % 6 == 0 { b"" } else { b"\0response response response response" })
+                    ));
+                }
+            }
+        }
+    }
+    let npair = if thorough { 60000 } else { 4000 };
+    for _ in 0..npair {
+        let route = *rng.pick(&routes);
+        let pops = route.eq_ignore_ascii_case("c");
+        let csnd: String = match rng.below(4) {
+            0 => "-".into(),
+            1 | 2 => rng.pick(&['g', 'd', 'z']).to_string(),
+            _ => (0..rng.range(2, 4)).map(|_| *rng.pick(&['g', 'd', 'z'])).collect(),
+        };
+        let handler = match rng.below(10) {
+            0 => format!("fail {} 0", rng.range(1, 16)),
+            1 | 2 => format!("reply {} 1", rng.below(4)),
+            _ => format!("reply {} 0", rng.below(4)),
+        };
+        let shape = if rng.chance(1, 5) { *rng.pick(&SHAPES_CLONED) } else { *rng.pick(&SHAPES) };
+        out.push(format!(
+            "pair.{} {} {} {} {} {} K {} H {} Q {} R {}",
+            shape,
+            route,
+            csnd,
+            calls(rng, false),
+            calls(rng, pops),
+            calls(rng, pops),
+            rng.below(4),
+            handler,
+            hex(&message(rng)),
+            hex(&message(rng))
+        ));
     }
 
     // ---- random structured + malformed
